@@ -74,11 +74,6 @@ FirstBad(o, k) == IF k > Len(o.calls) THEN ""
 SessionVerdict(o) == FirstBad(o, 1)
 
 Verdict(o) ==
-    LET bad == {k \in 1..Len(o.calls) : KthClause(o, k) # ""} IN
-    IF bad = {} THEN ""
-    ELSE LET k == CHOOSE k \in bad : \A j \in bad : k <= j IN ToString(k) \o ":" \o KthClause(o, k)
-
-Verdict(o) ==
     IF o.op = "session" THEN SessionVerdict(o) ELSE
     LET t == o.t  cond == o.cond  out == o.out IN
     IF o.after # t THEN "operand_changed"
